@@ -1351,7 +1351,17 @@ func checkC12(w *World, r *Report) {
 		{
 			sg := w.FG(pr.start)
 			E := w.Nodes(sg, w.evBroadcast("actor", "ActorStartedEvent"), true)
-			D := members(w.Nodes(sg, Ev{Name: "d", M: pr.evDeliver().M, Shallow: true}, false))
+			var D []int
+			for _, d := range members(w.Nodes(sg, pr.evDeliver(), false)) {
+				// lifecycle deliveries, directly or through a helper; not the replay of buffered user messages, not the recover handler
+				if _, isRD := sg.ins[d].(*ssa.RunDefers); isRD {
+					continue
+				}
+				if c := callOf(sg.ins[d]); c != nil && c.StaticCallee() == pr.invoke {
+					continue
+				}
+				D = append(D, d)
+			}
 			ok := len(D) >= 2 && anyOf(E)
 			if ok {
 				last := D[len(D)-1]
